@@ -1269,7 +1269,7 @@ fc_statements = [
             "{c_var_context}->rank = 1;",
             "{c_var_context}->shape[0] = {c_var_context}->size;",
         ],
-        destructor_name="std_vector_{cxx_T}",
+        destructor_name="std_vector_{flat_T}",
         destructor=[
             "std::vector<{cxx_T}> *cxx_ptr ="
             " \treinterpret_cast<std::vector<{cxx_T}> *>(ptr);",
@@ -1297,7 +1297,7 @@ fc_statements = [
             "{c_var_context}->rank = 1;",
             "{c_var_context}->shape[0] = {c_var_context}->size;",
         ],
-        destructor_name="std_vector_{cxx_T}",
+        destructor_name="std_vector_{flat_T}",
         destructor=[
             "std::vector<{cxx_T}> *cxx_ptr ="
             " \treinterpret_cast<std::vector<{cxx_T}> *>(ptr);",
@@ -1326,7 +1326,7 @@ fc_statements = [
             "{c_var_context}->rank = 1;",
             "{c_var_context}->shape[0] = {c_var_context}->size;",
         ],
-        destructor_name="std_vector_{cxx_T}",
+        destructor_name="std_vector_{flat_T}",
         destructor=[
             "std::vector<{cxx_T}> *cxx_ptr ="
             " \treinterpret_cast<std::vector<{cxx_T}> *>(ptr);",
@@ -1445,7 +1445,7 @@ fc_statements = [
     dict(
         name="f_vector_out",
         c_helper="copy_array",
-        f_helper="copy_array_{cxx_T}",
+        f_helper="copy_array_{flat_T}",
         f_module=dict(iso_c_binding=["C_SIZE_T"]),
         post_call=[
             "call {hnamefunc0}(\t{c_var_context},\t {f_var},\t size({f_var},kind=C_SIZE_T))",
@@ -1454,7 +1454,7 @@ fc_statements = [
     dict(
         name="f_vector_inout",
         c_helper="copy_array",
-        f_helper="copy_array_{cxx_T}",
+        f_helper="copy_array_{flat_T}",
         f_module=dict(iso_c_binding=["C_SIZE_T"]),
         post_call=[
             "call {hnamefunc0}(\t{c_var_context},\t {f_var},\t size({f_var},kind=C_SIZE_T))",
@@ -1463,7 +1463,7 @@ fc_statements = [
     dict(
         name="f_vector_result",
         c_helper="copy_array",
-        f_helper="copy_array_{cxx_T}",
+        f_helper="copy_array_{flat_T}",
         f_module=dict(iso_c_binding=["C_SIZE_T"]),
         post_call=[
             "call {hnamefunc0}(\t{c_var_context},\t {f_var},\t size({f_var},kind=C_SIZE_T))"
@@ -1473,7 +1473,7 @@ fc_statements = [
     dict(
         name="f_vector_out_allocatable",
         c_helper="copy_array",
-        f_helper="copy_array_{cxx_T}",
+        f_helper="copy_array_{flat_T}",
         f_module=dict(iso_c_binding=["C_SIZE_T"]),
         post_call=[
             "allocate({f_var}(\t{c_var_context}%size))",
@@ -1483,7 +1483,7 @@ fc_statements = [
     dict(
         name="f_vector_inout_allocatable",
         c_helper="copy_array",
-        f_helper="copy_array_{cxx_T}",
+        f_helper="copy_array_{flat_T}",
         f_module=dict(iso_c_binding=["C_SIZE_T"]),
         post_call=[
             "if (allocated({f_var}))\t deallocate({f_var})",
@@ -1496,7 +1496,7 @@ fc_statements = [
     dict(
         name="f_vector_result_allocatable",
         c_helper="copy_array",
-        f_helper="copy_array_{cxx_T}",
+        f_helper="copy_array_{flat_T}",
         f_module=dict(iso_c_binding=["C_SIZE_T"]),
         post_call=[
             "allocate({f_var}(\t{c_var_context}%size))",
